@@ -37,9 +37,10 @@ GUARD_DIR = os.path.join(FUZZ, "target-guard")
 
 
 def build_guard(target):
-    """The same target without sanitizer but with the guard allocator (harness/lmcheck/src/guard.rs): makes
+    """The same target without sanitizer and WITHOUT debug assertions (-O: a true release build, where a side
+    effect hidden in a debug_assert! is compiled out) but with the guard allocator (harness/lmcheck/src/guard.rs): makes
     out-of-bounds WRITES of the kernels' inline-asm non-temporal stores observable, which ASan cannot see."""
-    r = sh(["cargo", "+nightly", "fuzz", "build", "-s", "none", "--features", "guard-alloc", "--target-dir", GUARD_DIR, target], cwd=VERIF)
+    r = sh(["cargo", "+nightly", "fuzz", "build", "-O", "-s", "none", "--features", "guard-alloc", "--target-dir", GUARD_DIR, target], cwd=VERIF)
     if r.returncode != 0:
         sys.stderr.write(r.stdout[-4000:])
         print("BUILD FAILED (inconclusive, not a violation): cargo fuzz build -s none --features guard-alloc " + target, file=sys.stderr)
